@@ -389,6 +389,11 @@ func (rr *RelayRun) exec(k *sim.Kernel, op RelayOp) {
 			p.Actor.Publish(p.Units[p.Queued].Msg)
 			p.Queued++
 		}
+		for _, c := range rr.Cons {
+			if c.Rtsp != nil && c.Plan.Keepalive && c.Plan.Stream == p.Plan.Stream && c.Joined && !c.Left && !c.Stalled && c.Rtsp.Ready {
+				c.Rtsp.Keepalive()
+			}
+		}
 	case "stop_pub":
 		if op.Pub >= len(rr.Pubs) {
 			return
